@@ -23,39 +23,64 @@ ONLY_4XX = {"InvalidContentType", "InvalidRequestMethod"}
 
 
 def eval_enum_fn(body, adt):
-    """{variant name: constant value} for a fn(&Enum) -> const whose result depends on the discriminant only."""
+    """{variant name: constant value} for a fn(&Enum) -> const whose result depends on the discriminant only.
+    Exact evaluation per variant in a tiny domain: self, constants, tuples of those (a helper returning
+    (code, status) that was inlined), copies and re-borrows."""
     variants = [v["name"] for v in adt["variants"]]
     out = {}
+    SELF, DISCR = ("self",), ("discr",)
+
+    def read(env, p):
+        if p["local"] not in env:
+            raise AnchorMissing("%s: result depends on more than the discriminant (local _%d)" % (body.path, p["local"]))
+        x = env[p["local"]]
+        for e in p["proj"]:
+            if e == "deref":
+                continue
+            if isinstance(e, dict) and "field" in e and isinstance(x, tuple) and x and x[0] == "tuple":
+                x = x[1][e["idx"]]
+                continue
+            if x == SELF:
+                raise AnchorMissing("%s: result depends on more than the discriminant (a field of self is read)" % body.path)
+            raise AnchorMissing("%s: unsupported projection" % body.path)
+        return x
+
     for vi, vname in enumerate(variants):
         blk = 0
-        val = None
-        discr_locals = set()
+        env = {1: SELF}
         steps = 0
         while True:
             steps += 1
-            if steps > 200:
+            if steps > 300:
                 raise AnchorMissing("evaluation of %s does not terminate" % body.path)
             b = body.blocks[blk]
             for s in b["stmts"]:
                 if s["k"] != "assign":
                     raise AnchorMissing("%s: unexpected statement" % body.path)
                 rv = s["rv"]
+                d = s["place"]
+                if d["proj"]:
+                    raise AnchorMissing("%s: assignment to a projection" % body.path)
                 if rv["k"] == "discr":
-                    p = rv["place"]
-                    if p["local"] != 1 or [e for e in p["proj"] if e != "deref"]:
+                    if read(env, {"local": rv["place"]["local"], "proj": [e for e in rv["place"]["proj"] if e == "deref"]}) != SELF or [e for e in rv["place"]["proj"] if e != "deref"]:
                         raise AnchorMissing("%s reads a discriminant other than self's" % body.path)
-                    discr_locals.add(s["place"]["local"])
-                elif rv["k"] == "use" and op_const(rv["op"]) is not None and s["place"]["local"] == 0 and not s["place"]["proj"]:
-                    val = rv["op"]["const"]
-                elif rv["k"] == "use" and op_const(rv["op"]) is not None:
-                    pass
+                    env[d["local"]] = DISCR
+                elif rv["k"] == "use":
+                    c = op_const(rv["op"])
+                    env[d["local"]] = ("const", c) if c is not None else read(env, op_place(rv["op"]))
+                elif rv["k"] == "ref":
+                    env[d["local"]] = read(env, rv["place"])
+                elif rv["k"] == "aggregate" and rv.get("tuple"):
+                    env[d["local"]] = ("tuple", [("const", op_const(o)) if op_const(o) is not None else read(env, op_place(o)) for o in rv["ops"]])
                 else:
                     raise AnchorMissing("%s: result depends on more than the discriminant (%s at %s)" % (body.path, rv["k"], loc(s["span"])))
             t = b["term"]
             if t["k"] == "goto":
                 blk = t["target"]
+            elif t["k"] == "drop":
+                blk = t["target"]
             elif t["k"] == "switch":
-                if op_local(t["discr"]) not in discr_locals:
+                if read(env, op_place(t["discr"])) != DISCR:
                     raise AnchorMissing("%s switches on something other than self's discriminant" % body.path)
                 nxt = [bb for v, bb in t["targets"] if v == vi]
                 blk = nxt[0] if nxt else t["otherwise"]
@@ -65,9 +90,10 @@ def eval_enum_fn(body, adt):
                 raise AnchorMissing("%s: variant %s reaches `unreachable`" % (body.path, vname))
             else:
                 raise AnchorMissing("%s: unexpected terminator %s (result must depend on the kind alone)" % (body.path, t["k"]))
-        if val is None:
+        val = env.get(0)
+        if not (isinstance(val, tuple) and val and val[0] == "const"):
             raise AnchorMissing("%s: no constant result for variant %s" % (body.path, vname))
-        out[vname] = const_value(val)
+        out[vname] = const_value(val[1])
     return out
 
 
